@@ -99,6 +99,11 @@ SPECS = {
                   'final': 'cs_final_rcu_reuse', 'covers': [13]},
     'ser_conc': {'name': 'ser_conc', 'setup': 'cs_setup1', 'threads': [(W, 'c20_r_serialize'), (W, 'cs_w_store1')],
                  'final': 'cs_final1', 'covers': [13]},
+    # --- fallback-only strategy (feature test-strategies): multi-operation readers on the helping path
+    'nf_iso': {'name': 'nf_iso', 'setup': 'nf_setup', 'threads': [('nf_warm', 'nf_r_load_b_then_a'), ('nf_warm', 'nf_w_store_b3')],
+               'final': 'nf_final', 'covers': [13]},
+    'nf_lin': {'name': 'nf_lin', 'setup': 'nf_setup', 'threads': [('nf_warm', 'nf_r_load_store_load'), ('nf_warm', 'nf_w_store_a2')],
+               'final': 'nf_final', 'covers': [13]},
     # --- two containers: writer of B walks the node of a reader of A which is on the fallback path
     'iso_b': {'name': 'iso_b', 'setup': 'cs_setup2', 'threads': [('cs_fill8_t1', 'cs_r_fallback'), (W, 'cs_w_store_b3')],
               'final': 'cs_final2_release', 'covers': [13, 14]},
